@@ -15,6 +15,6 @@ Proof. reflexivity. Qed.
 
 (* Model.Query.bucket_add: `b_bytes b + sz <=? maxb` *)
 Definition sites_C13_ops : Prop :=
-  site_bucket_fits = Sle /\ ncmp_services_browser_group_ptr_queries_with_known_answers = 1 /\
+  sites_found_C13 = true /\ site_bucket_fits = Sle /\ ncmp_services_browser_group_ptr_queries_with_known_answers = 1 /\
   ncmp_history_QuestionHistory_suppresses = 1 /\ ncmp_history_QuestionHistory_async_expire = 1.
 Lemma sites_C13_ops_ok : sites_C13_ops. Proof. repeat split; reflexivity. Qed.
